@@ -50,6 +50,8 @@ pub struct Gen {
     pub pct: Vec<(Vec<u8>, Vec<u32>)>,
     /// two-preemption schedules: (participant order selector, steps of the first, steps of the second)
     pub pre2: Vec<(u8, u32, u32)>,
+    /// explicit segment schedules (participant, steps) x 3-6
+    pub segs: Vec<Vec<(u8, u8)>>,
 }
 
 pub fn gen(with_adversary: bool, kinds: Vec<u8>, caps: Vec<usize>, max_ops: usize) -> impl Strategy<Value = Gen> {
@@ -60,15 +62,15 @@ pub fn gen_with(with_adversary: bool, kinds: Vec<u8>, caps: Vec<usize>, max_ops:
     gen_layout(kinds, caps).prop_flat_map(move |layout| {
         let k = op_kinds(layout.kind);
         let adv = if with_adversary { prop::collection::vec(gen_prog(vec![PKind::Adversary], 2, 3), 0..2).boxed() } else { Just(vec![]).boxed() };
-        (Just(layout), prop::collection::vec(gen_prog(k, max_ops, keys), 2..4), adv, prop::collection::vec(prop::collection::vec(0u8..4, 0..60), 0..6), prop::collection::vec((prop::collection::vec(0u8..8, 4), prop::collection::vec(0u32..150, 0..4)), 0..4), prop::collection::vec((0u8..6, 0u32..70, 0u32..50), 0..8))
+        (Just(layout), prop::collection::vec(gen_prog(k, max_ops, keys), 2..4), adv, prop::collection::vec(prop::collection::vec(0u8..4, 0..60), 0..6), prop::collection::vec((prop::collection::vec(0u8..8, 4), prop::collection::vec(0u32..150, 0..4)), 0..4), prop::collection::vec((0u8..6, 0u32..70, 0u32..50), 0..8), prop::collection::vec(prop::collection::vec((0u8..3, 1u8..16), 3..7), 0..10))
     })
-    .prop_map(|(layout, mut progs, adv, walks, pct, pre2)| {
+    .prop_map(|(layout, mut progs, adv, walks, pct, pre2, segs)| {
         progs.truncate(if adv.is_empty() { 3 } else { 2 });
         progs.extend(adv);
         let mut layout = layout;
         // a third of the layouts carry aged debris of crashed writers in every temp directory
         layout.stale_debris = fnv(format!("{:?}", progs).as_bytes()) % 3 == 0;
-        Gen { layout, progs, walks, pct, pre2 }
+        Gen { layout, progs, walks, pct, pre2, segs }
     })
 }
 
@@ -90,6 +92,7 @@ pub fn strategies(root: &Path, g: &Gen, opts: RunOpts, enumerate: bool) -> Vec<S
         }
         v.push(Sched::Preempt2 { order, at: *at, at2: *at2 });
     }
+    v.extend(g.segs.iter().cloned().map(Sched::Segments));
     v
 }
 
@@ -137,7 +140,7 @@ pub fn run(ctx: &Ctx) -> Report {
                 let lost = *r.as_ref().unwrap_or(&0);
                 rep.case(if lost > 0 { Some(fnv(format!("{:?}{:?}{:?}", g.layout, g.progs, ex.picks).as_bytes())) } else { None });
                 rep.extra_add("scheduling_steps", ex.sched_steps);
-                rep.label(match s { Sched::Walk(_) => "strategy:random walk", Sched::Pct { .. } => "strategy:PCT", Sched::Preempt2 { .. } => "strategy:two preemptions (sampled)", _ => "strategy:single preemption (enumerated)" });
+                rep.label(match s { Sched::Walk(_) => "strategy:random walk", Sched::Pct { .. } => "strategy:PCT", Sched::Preempt2 { .. } => "strategy:two preemptions (sampled)", Sched::Segments(_) => "strategy:explicit multi-preemption segments (sampled)", _ => "strategy:single preemption (enumerated)" });
                 rep.label(["layout:plain", "layout:sharded", "layout:stacked over plain", "layout:stacked over sharded"][g.layout.kind as usize % 4]);
                 if g.progs.iter().any(|p| p.iter().any(|o| o.kind == PKind::Adversary)) {
                     rep.label("with adversary");
@@ -164,6 +167,46 @@ pub fn run(ctx: &Ctx) -> Report {
     if found.is_some() {
         if let Some((case, sig, detail)) = failing.borrow().clone() {
             rep.violation(&sig, detail, json!({"case": case}));
+        }
+    }
+    // ---- three single-operation participants on ONE key, every schedule in which one of them is
+    // preempted twice (by the two others in turn): the smallest shape that needs two preemptions
+    {
+        fn triple_kinds(_: u8) -> Vec<PKind> {
+            vec![PKind::Put, PKind::RawPut, PKind::RawPut, PKind::Set, PKind::Ensure, PKind::Touch, PKind::Get, PKind::Adversary, PKind::Adversary]
+        }
+        let sets = ctx.share(ctx.scale(96, 3000)) as u32;
+        let rep_cell = std::cell::RefCell::new(&mut rep);
+        let failing: std::cell::RefCell<Option<(ConcCase, String, String)>> = std::cell::RefCell::new(None);
+        let strat = (gen_layout(vec![0, 1, 2, 3], vec![2, 3, 1 << 30]), prop::collection::vec(gen_prog(triple_kinds(0), 1, 1), 3), any::<bool>());
+        let found = prop_search(ctx, 55, sets, 30, &strat, |(layout, progs, present), exploring| {
+            let mut layout = layout.clone();
+            layout.preload_writer = if *present { vec![0] } else { vec![] };
+            layout.dirs_missing = false;
+            let solo = solo_steps(&root, &layout, progs, opts);
+            for s in double_preemptions(&solo) {
+                prepare(&root, &layout);
+                let ex = run_conc(&root, &layout, progs, &s, opts);
+                clean(&root);
+                let r = judge_exec(&ex);
+                if exploring {
+                    let mut rep = rep_cell.borrow_mut();
+                    let lost = *r.as_ref().unwrap_or(&0);
+                    rep.case(if lost > 0 { Some(fnv(format!("{:?}{:?}{:?}", layout, progs, ex.picks).as_bytes())) } else { None });
+                    rep.label("strategy:one participant preempted twice (enumerated, 3 single-operation participants on one key)");
+                }
+                if let Err((sig, detail)) = r {
+                    *failing.borrow_mut() = Some((ConcCase { layout: layout.clone(), progs: progs.clone(), strategy: s.clone() }, sig.clone(), detail.clone()));
+                    return Err(format!("{}|{}", sig, detail));
+                }
+            }
+            Ok(())
+        });
+        drop(rep_cell);
+        if found.is_some() {
+            if let Some((case, sig, detail)) = failing.borrow().clone() {
+                rep.violation(&sig, detail, json!({"case": case}));
+            }
         }
     }
     crate::stress::phase(ctx, "C05", &mut rep);
